@@ -292,7 +292,7 @@ func checkLexemes(c *Ctx, f *FC) {
 	// re-reading of an operator character — "-" before a digit as a sign — changes how chains group)
 	if nf, fn := f.NF("nextToken"); fn != nil {
 		nf2 := strings.ReplaceAll(nf, "(Token).end", "Token.end")
-		r.Check(canonDiag(nf2) == canonDiag(nextTokenNF), "C08.b", "nextToken", "closed-form", c.Pos(f.M.Fset, fn.Decl.Pos()),
+		r.Check(f.canon(nf2) == f.canon(nextTokenNF), "C08.b", "nextToken", "closed-form", c.Pos(f.M.Fset, fn.Decl.Pos()),
 			"the next token is what scanTokenAt scans at the end of the previous one (SPACE skipped, EOF at the end): an operator spelling is the same token in every context",
 			"nextToken's closed form changed: the token an operator spelling scans to may depend on its context; "+diffHint(nf2, nextTokenNF))
 	} else {
